@@ -352,6 +352,8 @@ func lambdaCorpus() []lambdaShape {
 		{Nodes: 2, Count: 3, Prior: 1, RPC: "sync", SendFail: 2, Scripts: map[int]ctScript{0: {Lines: 2, Code: 1}, 1: {Lines: 0, Code: 0}, 2: {Lines: 3, WaitFail: true}}},
 		{Nodes: 1, Count: 2, RPC: "sync", Scripts: map[int]ctScript{0: {Lines: 1, Code: 0}, 1: {Lines: 2, Code: 7}}},
 		{Nodes: 1, Count: 2, RPC: "async", Scripts: map[int]ctScript{0: {Lines: 2, Code: 0}, 1: {Lines: 1, Code: 3}}},
+		// more than a dozen workers at once
+		{Nodes: 3, Count: 14, Scripts: map[int]ctScript{0: {Lines: 1, Code: 1}, 3: {Lines: 2, WaitFail: true}, 7: {LogsFail: true}, 13: {Lines: 3, Code: 9}}},
 		// the request's DEADLINE passes while the workload is still running (not a cancel)
 		{Nodes: 1, Count: 1, Prior: 1, DeadlineMs: 700, Scripts: map[int]ctScript{0: {Lines: 2, Code: 4, WaitDelayMs: 1100}}},
 		{Nodes: 1, Count: 1, RPC: "async", DeadlineMs: 1000, Scripts: map[int]ctScript{0: {Lines: 1, Code: 0, WaitDelayMs: 1600}}},
